@@ -66,4 +66,29 @@ Section D.
       | OK st1 => decode_from c b lm freevars st1
       end.
   Proof. intros. reflexivity. Qed.
+
+  (* the end of bytes_to_blocks: the entries no instruction referred to, per table and under its constructor, in this order *)
+  Theorem additional_of_tie : forall st2 : decstate C,
+    PCD.Gen.SrcIter.additional_of keq st2 =
+    match additional_args str_eqb (d_names st2) with
+    | Err e => Err e
+    | OK an =>
+    match additional_args str_eqb (d_varnames st2) with
+    | Err e => Err e
+    | OK av =>
+    match additional_args str_eqb (d_cellvars st2) with
+    | Err e => Err e
+    | OK ac =>
+    match additional_args keq (d_consts st2) with
+    | Err e => Err e
+    | OK ak => OK (arg_of_additional AName an ++ arg_of_additional AVarname av
+                   ++ arg_of_additional ACellvar ac ++ arg_of_additional AConst ak)
+    end end end end.
+  Proof.
+    intros st2. unfold PCD.Gen.SrcIter.additional_of. rewrite !SrcTablesTie.additional_args_tie.
+    destruct (additional_args str_eqb (d_names st2)); cbn [bind]; [|reflexivity].
+    destruct (additional_args str_eqb (d_varnames st2)); cbn [bind]; [|reflexivity].
+    destruct (additional_args str_eqb (d_cellvars st2)); cbn [bind]; [|reflexivity].
+    destruct (additional_args keq (d_consts st2)); cbn [bind]; reflexivity.
+  Qed.
 End D.
